@@ -209,12 +209,17 @@ class AboutCentreMonitor(taps.Monitor):
         if self.which == "transform":
             tr = rest[0] if rest else kw.get("transform")
             import menpo.transform as mt
-            if not isinstance(tr, mt.Homogeneous):
+            if not taps.is_menpo(tr):
                 return None
-            h = np.asarray(tr.h_matrix, dtype=float)
-            if _amax(h[-1, :-1]) > 0:
-                return None
-            st["A"], st["b"] = h[:d, :d].copy(), h[:d, d].copy()
+            if isinstance(tr, mt.Homogeneous) and _amax(np.asarray(tr.h_matrix, dtype=float)[-1, :-1]) == 0:
+                h = np.asarray(tr.h_matrix, dtype=float)
+                st["A"], st["b"] = h[:d, :d].copy(), h[:d, d].copy()
+            else:
+                # any other transform (a chain, a spline, ...): "the plain transform on offsets" is its own map of the offsets
+                try:
+                    st["plain"] = tr.copy()
+                except Exception:
+                    return None
         elif self.which == "scale":
             s = rest[0] if rest else kw.get("scale")
             sv = np.asarray(s, dtype=float)
@@ -249,10 +254,14 @@ class AboutCentreMonitor(taps.Monitor):
         if exc is not None:
             ctx.fail("about_centre_builder_raised", cls=cls, mech=self.which + ":" + type(exc).__name__)
             return
-        c, A, b, d = st["c"], st["A"], st["b"], st["d"]
+        c, d = st["c"], st["d"]
         v = tx.probe(np.random.default_rng(21), d, 7, box=5.0)
         got = np.asarray(t.apply(np.vstack([c[None], c + v])))
-        exp = np.vstack([c[None] + b, c + v @ A.T + b])
+        if "plain" in st:
+            exp = c + np.asarray(st["plain"].apply(np.vstack([np.zeros((1, d)), v])))
+        else:
+            A, b = st["A"], st["b"]
+            exp = np.vstack([c[None] + b, c + v @ A.T + b])
         scale = max(1.0, np.abs(exp).max())
         e_c = np.abs(got[0] - exp[0]).max()
         e_o = np.abs(got[1:] - exp[1:]).max()
@@ -371,6 +380,12 @@ def w_about_centre(ctx, rng, i):
             h = np.eye(d + 1); h[:d, :d] = gen.well_conditioned(rng, d); tr = mt.Affine(h)
         else:
             tr = mt.UniformScale(float(rng.uniform(0.3, 3)), d)
+        if rng.random() < 0.3:
+            # transforms that are not one homogeneous matrix: a chain (rotation, then per-axis scale), a thin-plate spline
+            if d == 2 and rng.random() < 0.4:
+                tr, _ = tx.make(rng, "ThinPlateSplines", 2)
+            else:
+                tr = mt.TransformChain([mt.Rotation(gen.rotation_matrix(rng, d)), mt.NonUniformScale(rng.uniform(0.3, 3, d))])
         mt.transform_about_centre(obj, tr)
     elif which == "scale":
         if rng.random() < 0.5:
